@@ -54,6 +54,12 @@ Lemma gen_rand_is_model s n :
   gen_rand_cond s n = negb (s =? 0) && (s <? n) /\ gen_rand_size s n = s.
 Proof. split; reflexivity. Qed.
 
+(* keyword defaults of the two signatures: remove_invalid=False, ret_idx=False
+   (the dataset level relies on the first one in filter.py) *)
+Lemma gen_defaults_are_false :
+  gen_grid_defaults = (false, false) /\ gen_rand_defaults = (false, false).
+Proof. split; reflexivity. Qed.
+
 (* ---- the model's functions assembled from the translated pieces --------- *)
 Definition gen_discretize (ad : list Z) : list Z :=
   match ad with
